@@ -124,6 +124,12 @@ func init() {
 			for _, c := range causes {
 				for _, m := range mixes {
 					for _, later := range []int{0, 1} {
+						b := b
+						// the registration of a late channel races the end of the connection at
+						// several points at once: explored one level deeper
+						if m == "latestream" && later == 0 && (tier == "thorough" || c == "fin" || c == "rst") {
+							b = 3
+						}
 						ps = append(ps, Param{Name: fmt.Sprintf("%s-%s-later%d", c, m, later), Bound: b,
 							V: map[string]int{"later": later}, S: map[string]string{"cause": c, "mix": m}})
 					}
